@@ -1088,6 +1088,7 @@ func c08CfgTerm(c *c08Cfg, mode string) string {
 		pf = "PSyntax"
 	}
 	var effs, addrs []string
+	firstLog := -1
 	for _, e := range c.Effs {
 		switch e.K {
 		case "bad":
@@ -1098,7 +1099,17 @@ func c08CfgTerm(c *c08Cfg, mode string) string {
 			if c08Inert(mode, &e) {
 				continue // an OnFirstStartup callback: not run by this kind of attempt
 			}
-			effs = append(effs, cApp("ELog", cN(uint64(e.F)), cN(uint64(e.Size)), cBool(e.OK)))
+			t := cApp("ELog", cN(uint64(e.F)), cN(uint64(e.Size)), cBool(e.OK))
+			if !e.OK && e.Via == "plugin-first" && firstLog >= 0 {
+				// casket.Start runs the OnFirstStartup callbacks before ALL the OnStartup callbacks: the failing
+				// one comes before the startup callback of any `log` line (no roller is registered)
+				effs = append(effs[:firstLog], append([]string{t}, effs[firstLog:]...)...)
+				continue
+			}
+			if firstLog < 0 {
+				firstLog = len(effs)
+			}
+			effs = append(effs, t)
 		case "auth":
 			effs = append(effs, cApp("EAuth", cN(uint64(e.F)), cN(uint64(e.U))))
 		case "proxy":
